@@ -174,7 +174,7 @@ func marshalConfig(c *config.PikeConfig) ([]byte, error) {
 // freePorts hands out ports from a range private to this shard (below the
 // ephemeral range, so that neither other shards nor outgoing connections or
 // the harness upstreams, which listen on ephemeral ports, can take them)
-var portCursor int
+var portCursor = (os.Getpid() * 37) % 1000 // concurrent runs of the same shard start at different offsets
 
 func freePorts(n int) []int {
 	shard, _ := vstat.Shard()
